@@ -107,6 +107,7 @@ type Interp struct {
 	skipStub *ssa.Function
 	ts       *threadSys
 	tags     []string
+	timerFires int
 	onFSEffect func(it *Interp, e FSEffect)
 	fsFaultsOff bool
 	cache    *SatCache
@@ -127,6 +128,10 @@ type AllocEvent struct {
 	Site  string
 	Bytes *Term // 64-bit
 	Count *Term
+}
+
+func (it *Interp) timerMayFire() bool {
+	return it.job.TimerBudget == 0 || it.timerFires < it.job.TimerBudget
 }
 
 func (it *Interp) site() string {
@@ -2153,8 +2158,9 @@ func (it *Interp) chanRecv(chv Value) (Value, bool) {
 		if ch.closed {
 			return it.zero(ch.elem), false
 		}
-		if ch.maybeReady {
+		if ch.maybeReady && it.timerMayFire() {
 			if it.branch(it.fresh("ready_"+ch.label, SBool), "chanready") {
+				it.timerFires++
 				return ch.readyVal, true
 			}
 		}
@@ -2197,7 +2203,8 @@ func (it *Interp) doSelect(fr *frame, x *ssa.Select) Value {
 	}
 	// possibly-ready channels (timers, ctx.Done of a symbolic context): each one is a symbolic choice
 	for _, i := range maybe {
-		if it.branch(it.fresh("ready_"+chans[i].label, SBool), "selectready") {
+		if it.timerMayFire() && it.branch(it.fresh("ready_"+chans[i].label, SBool), "selectready") {
+			it.timerFires++
 			chans[i].buf = append(chans[i].buf, chans[i].readyVal)
 			ready = append(ready, i)
 		}
